@@ -17,7 +17,7 @@ edge_betweenness_wei) and the matrix-power routine betweenness_bin:
 """
 import ast
 
-from ..core.astutil import norm, ParentMap, same_up_to_reordering
+from ..core.astutil import norm, ParentMap, same_up_to_reordering, loop_exits
 from ..core.cfg import CFG
 from ..core.loader import walk_no_nested
 from ..core.pattern import Matcher
@@ -103,6 +103,10 @@ def _brandes(prog, rep, f, kind, edges):
     vl = [lp for lp in pm.loops(fs) if isinstance(lp, ast.For) and norm(lp.target) == v]
     rep.ob('Q.every-settled-node-recorded-once', f, vl[0].iter if vl else 'for v in V', bool(vl) and any(fs is x for x in vl[0].body),
            'each node of the current frontier must be recorded exactly once, unconditionally', line=fs.lineno)
+    if vl:
+        outs = loop_exits(vl[0])
+        rep.ob('Q.frontier-loop-visits-every-settled-node', f, outs[0] if outs else vl[0].iter, not outs,
+               'the loop over the nodes settled together must not be left early: the remaining ones would be neither recorded nor relaxed', line=vl[0].lineno)
     # other stores into Q
     others = [s for s in body_stmts if isinstance(s, ast.Assign) and s is not fs and any(norm(t).startswith(Q + '[') for t in _targets(s)) and not m.match(s, '%s = $X' % Q)]
     unreach_src = {'wei': ('np.flatnonzero(np.isinf(D))',), 'bin': ('np.flatnonzero(np.logical_not(D))', 'np.flatnonzero(D == 0)')}[kind]
@@ -303,6 +307,11 @@ def variants(root):
     for fn in ('betweenness_wei', 'edge_betweenness_wei', 'edge_betweenness_bin'):
         B('first-hop nodes skipped in the back-propagation', fn, '            for v in np.where(P[w, :])[0]:', '            if P[w, u]:\n                continue\n            for v in np.where(P[w, :])[0]:', 'D.every-predecessor')
         B('back-propagation stops at the first leaf', fn, '            for v in np.where(P[w, :])[0]:', '            if not DP[w]:\n                break\n            for v in np.where(P[w, :])[0]:', 'D.every-predecessor')
+    for fn in ('betweenness_wei', 'edge_betweenness_wei'):
+        B('frontier loop left at a node without unvisited neighbours', fn, '                W, = np.where(G1[v, :])  # neighbors of v\n',
+          '                W, = np.where(G1[v, :])  # neighbors of v\n                if W.size == 0:\n                    break\n', 'Q.frontier-loop')
+        N('empty neighbourhood skips the relaxation only', fn, '                W, = np.where(G1[v, :])  # neighbors of v\n',
+          '                W, = np.where(G1[v, :])  # neighbors of v\n                if W.size == 0:\n                    continue\n')
     for fn in ('betweenness_wei', 'edge_betweenness_wei'):
         B('unreachable fill one short', fn, 'Q[:q + 1], = np.where(np.isinf(D))', 'Q[:q], = np.where(np.isinf(D))', 'Q.unreachable')
         B('tie treated as improvement', fn, 'if Duw < D[w]:', 'if Duw <= D[w]:', 'R.')
